@@ -4,19 +4,19 @@ import colorgen
 
 CLAIMED = True
 LEVEL = 'proof'
-LEVEL_TEXT = ('Proof: 14 Coq theorems, each quantified over every row of the colour table that translate/gen_colors.py regenerates '
+LEVEL_TEXT = ('Proof: 15 Coq theorems, each quantified over every row of the colour table that translate/gen_colors.py regenerates '
               'from core/src/pixelcolor/*.rs on every run (14 types: BinaryColor, Gray2/4/8, 10 RGB/BGR types; their raw types, '
               'storage widths, channel widths, the Rgb/Bgr position arms of the macro, byte slices) and over ALL integer values: '
               'colour->raw->colour is the identity, the raw value fits BITS_PER_PIXEL, raw->colour->raw equals `v & ones(used bits)` '
               'for every storage value v and is idempotent, new(r,g,b) keeps each channel modulo 2^width and r()/g()/b()/luma() '
               'return it, a colour is determined by its channels, RGB types have red in the most significant used bits and BGR types '
               'blue (to_raw(new(r,g,b)) as an explicit sum, accessors as div/mod), the type name states the format (Rgb565 = 5/6/5), '
-              'into_storage / to_be_bytes / to_le_bytes denote the same number with ceil(bpp/8) bytes, BinaryColor Off/On <-> 0/1, '
+              'into_storage / to_be_bytes / to_le_bytes denote the same number with ceil(bpp/8) bytes, each element a byte, le = rev be, BinaryColor Off/On <-> 0/1, '
               'the eight named RgbColor constants have the channels their names say. '
               'The macro bodies are transcribed once, generically (coq/Model/Colormodel.v); the proofs are general bit-field '
               'arithmetic for any well-formed row, and well-formedness of the regenerated rows is decided by vm_compute. '
-              'The generic transcription is tied to the code by the translator\'s shape checks (it fails closed when a macro body '
-              'changes) and by running the extracted model against the real library on all values of the 8/16-bit types and '
+              'The generic transcription is tied to the code by the translator\'s whole-item shape checks (every macro item the model '
+              'transcribes, incl. the complete body of new(), must match literally; otherwise the translator fails and poisons the tables) and by running the extracted model against the real library on all values of the 8/16-bit types and '
               'stratified values of the 24-bit types.')
 LEVEL_NOTE = ('Trusted: Coq kernel incl. vm_compute, the regex translator (reads macro rows and literal bodies; unit tests and comments '
               'are stripped), extraction, the OCaml/Rust drivers. Rust integer semantics (`as u8`, shifts, `&`, `|` on u8/u16/u32) is '
